@@ -26,6 +26,7 @@ use std::io::Write;
 use std::ops::Deref;
 use std::ops::DerefMut;
 use std::path::Path;
+use std::path::PathBuf;
 use std::sync::Arc;
 use std::sync::atomic::AtomicBool;
 use std::sync::atomic::Ordering;
@@ -199,7 +200,7 @@ impl Output {
                         // Rename the old output file so that we can create a new file in its place.
                         // Reusing the existing file would also be an option, but that wouldn't
                         // error if the file is currently being executed.
-                        let renamed_old_file = path.with_extension("delete");
+                        let renamed_old_file = unused_sibling_path(&path);
                         let rename_status = std::fs::rename(&path, &renamed_old_file);
 
                         // If there was an old output file that we renamed, then delete it. We do so
@@ -284,6 +285,22 @@ fn default_file_write_mode(args: &impl platform::Args, output_kind: OutputKind) 
     };
 
     FileWriteMode::UpdateInPlaceWithFallback
+}
+
+/// Returns a path in the same directory as `path` at which nothing currently exists. The old
+/// output file gets renamed to this path before it's deleted, so it must not be the name of some
+/// other file that the user cares about.
+fn unused_sibling_path(path: &Path) -> PathBuf {
+    let file_name = path.file_name().unwrap_or_default().to_string_lossy();
+    let pid = std::process::id();
+    let mut n = 0u32;
+    loop {
+        let candidate = path.with_file_name(format!(".{file_name}.{pid}.{n}.delete"));
+        if std::fs::symlink_metadata(&candidate).is_err() {
+            return candidate;
+        }
+        n += 1;
+    }
 }
 
 /// Delete the old output file. Note, this is only used when running from a single thread.
